@@ -1,12 +1,37 @@
-# TEMPORARY - replaced at merge.  Stand-alone configuration of the rANS / FSE / LZ half of C01.
+# TEMPORARY - replaced at merge.  Stand-alone configuration of the rANS / FSE / LZ half of C01 (texts are meant to be merged).
 """Configuration of the C01 check (see lib/props.py)."""
 P = {'id': 'C01',
  'level': 'proof',
  'coq_deps': ['C02'],
  'theorems': ['rans_step_inverse', 'rans_no_overflow', 'rans_roundtrip', 'parallel_roundtrip', 'normalize_wf', 'normalize_defined', 'table_of_counts_wf', 'rans_encode_refuses', 'rans_encode_defined', 'lz_parse_decodes', 'lz_sound_chooser_roundtrip', 'lz_decode_encode', 'alverson_exact', 'fse_mul_hi_old_refuted', 'fse_core_roundtrip', 'fse_encode_refuses', 'fse_encode_defined', 'fse_single_roundtrip', 'fse_roundtrip'],
- 'trusted': [],
- 'assumptions': [],
- 'level_text': 'under construction',
- 'level_note': '',
- 'technique': '',
- 'explanation': ''}
+ 'trusted': ['modelled (M+S), second half: src/entropy/rans.rs (Rans64Encoder::new/normalize_frequencies [model of coq/C02]/encode_symbol/encode/encode_single/'
+             'encode_parallel, Rans64Decoder::new/decode_symbol/decode/decode_single/decode_parallel) bit-exact incl. the n-stream layout; '
+             'src/entropy/dictionary.rs DictionaryCompressor::compress/decompress and OptimizedDictionaryCompressor::decompress bit-exact; '
+             'src/entropy/fse.rs FseTable::init_enc_symbol/mul_hi/encode_symbol/renormalize_encode/decode_symbol/renormalize_decode, '
+             'FseEncoder::compress/compress_single_internal/compress_parallel/merge_compressed_blocks, FseDecoder::decompress/decompress_single/'
+             'decompress_parallel bit-exact, with the normalised table (FseTable::new, f64 entropy normaliser) as a parameter read from the real FseTable',
+             'spec-only cells (direct oracle, no mechanism model): AdaptiveRans64Encoder, OptimizedDictionaryCompressor::compress (its decoder and the generic '
+             'sound-chooser theorem are modelled), non-adaptive FseEncoder reusing a table, FseEncoder::with_dictionary, fse_compress/fse_zip/'
+             '*_with_config convenience functions, AdaptiveParallelEncoder::encode_adaptive (rANS and FSE selections), the AVX2 histogram',
+             'not modelled: the f64 normaliser of FSE (well-formedness of its output is a hypothesis of the FSE theorems), thread spawning in '
+             'compress_parallel, allocation; inputs above MAX_DECOMPRESSED_SIZE (100 MiB) which the decoders refuse'],
+ 'assumptions': ['usize is 64 bits; tables have 256 entries; raw counts fit u32',
+                 'payload length <= MAX_DECOMPRESSED_SIZE (100 MiB): the decoders refuse longer outputs, the theorems state the bound',
+                 'agreement of model and code is established on the generated cases only (normalised rANS tables, rANS encoder bytes and decoder output '
+                 'for 1/2/4/8 streams, all five fields of the 256 FSE encoding symbols, FSE compressed bytes and decoder output incl. block containers, '
+                 'LZ token streams and decoder output)'],
+ 'level_text': 'Machine-checked Coq theorems about exact integer models of the rANS-64 coder (byte renormalisation, 1/2/4/8 interleaved streams), of the '
+               'FSE coder of this code base (rANS with 32-bit renormalisation, Alverson reciprocal division, header, stored path, block container and its '
+               'sniffing heuristic) and of the LZ dictionary coder: one encoder step is inverted by one decoder step with the state interval as invariant; '
+               'decode(encode(d)) = d for every well-formed table, every payload, every stream count and every length; the three-pass normaliser keeps the '
+               'table sum at 4096 and every present symbol at >= 1 slot; the reciprocal multiplication is an exact division without u64 wrap; the FSE decoder '
+               'reads four bytes exactly when the encoder wrote four, including the start-up phase; every valid LZ parse decodes to the payload whatever the '
+               'match chooser, and the greedy longest-match search is a sound chooser. Uncovered symbols are refused, never substituted. The models are tied '
+               'to the code by evaluating generated cases in Coq against what the implementation returned (tables, encoder bytes, decoder output).',
+ 'level_note': 'Trusted: Coq kernel + vm_compute; hand-written models; harness generators and the round-trip oracle; the f64 FSE normaliser is a parameter '
+               'of the theorems (its table is read from the real code per case).',
+ 'technique': 'Coq proof: induction over the payload with a state-interval invariant, b-uniqueness of the renormalisation, Euclidean-division arithmetic '
+              '(lia/nia on isolated lemmas), list lemmas for the stream layout and the container; refutation by vm_compute with the witness replayed on the '
+              'real code; model/implementation differential check; direct round-trip oracle over every codec, preset, stream count and training relation',
+ 'explanation': 'Unbounded round-trip theorems for rANS (n streams), FSE (single block and container, any normaliser) and LZ (any sound match chooser); '
+                'round-trip oracle for every entry point; eight defects found and repaired (findings/C01_b.txt).'}
